@@ -223,29 +223,29 @@ async def play(world: SWorld, tr: str, max_retry: int, toks: list[str], st: dict
         except Exception as e:  # noqa: BLE001
             return "exc:" + type(e).__name__
 
+    async def do_read(tmo):
+        try:
+            r = await client.transport.read(tmo)
+            return "eos" if r == b"" else "data:" + r.hex()
+        except (TimeoutError, asyncio.TimeoutError):
+            return "timeout"
+        except ConnectionError:
+            return "conn"
+        except binascii.Error:
+            return "badline"
+        except OSError:
+            return "badfd"
+        except Exception as e:  # noqa: BLE001
+            return "exc:" + type(e).__name__
+
     pending = None   # (kind, task)
-
-    async def finish():
-        nonlocal pending
-        if pending is None:
-            return
-        kind, task = pending
-        st["blocked_in"] = kind
-        r = await task
-        st["blocked_in"] = None
-        pending = None
-        obs.append(f"{kind}:{r}:{world.ms()}:{len(world.conns)}")
-        await _quiesce()
-
-    def on_done(_t):
-        st["t_done"] = world.ms()
 
     for tok in toks:
         f = tok.split(":")
         if f[0] == "T":
             await asyncio.sleep(int(f[1]) / 1000)
             continue
-        if f[0] in ("R", "C", "K"):
+        if f[0] in ("R", "C", "K", "Q"):
             # the previous call has to return first; the observation carries the time it returned at
             if pending is not None:
                 kind, task = pending
@@ -253,7 +253,7 @@ async def play(world: SWorld, tr: str, max_retry: int, toks: list[str], st: dict
                 r = await task
                 st["blocked_in"] = None
                 pending = None
-                obs.append(f"{kind}:{r}:{st['t_done']}:{st['n_done']}")
+                obs.append(f"{kind}:{r}:{st['t_done']}" + ("" if kind == "rd" else f":{st['n_done']}"))
                 await _quiesce()
             if f[0] == "C":
                 try:
@@ -263,14 +263,19 @@ async def play(world: SWorld, tr: str, max_retry: int, toks: list[str], st: dict
                     obs.append(f"close-raised:{type(e).__name__}:{world.ms()}")
                 await _quiesce()
                 continue
-            coro = do_request(bytes.fromhex(f[1]), None if f[2] == "none" else int(f[2]) / 1000) if f[0] == "R" else do_reconnect()
+            if f[0] == "R":
+                coro = do_request(bytes.fromhex(f[1]), None if f[2] == "none" else int(f[2]) / 1000)
+            elif f[0] == "Q":
+                coro = do_read(None if f[1] == "none" else int(f[1]) / 1000)
+            else:
+                coro = do_reconnect()
             task = loop.create_task(coro)
 
             def _done(_t, world=world):
                 st["t_done"] = world.ms()
                 st["n_done"] = len(world.conns)
             task.add_done_callback(_done)
-            pending = ("req" if f[0] == "R" else "rc", task)
+            pending = ({"R": "req", "Q": "rd", "K": "rc"}[f[0]], task)
             await _quiesce()
             continue
         world.apply(tok)
@@ -280,7 +285,7 @@ async def play(world: SWorld, tr: str, max_retry: int, toks: list[str], st: dict
         st["blocked_in"] = kind
         r = await task
         st["blocked_in"] = None
-        obs.append(f"{kind}:{r}:{st['t_done']}:{st['n_done']}")
+        obs.append(f"{kind}:{r}:{st['t_done']}" + ("" if kind == "rd" else f":{st['n_done']}"))
     return obs
 
 
